@@ -1,7 +1,7 @@
 (* Instruction-level statements: what it means for the op list the assembler emits for an
    instruction to implement a documented stack effect, on every stack. *)
 From Coq Require Import ZArith List Bool Arith Lia String.
-From MV Require Import Base.Field Core.Op Core.Rpo Vm.Pure Vm.PureProps Gen.AsmGen.
+From MV Require Import Base.Field Core.Op Core.Rpo Vm.Pure Vm.PureProps Gen.AsmGen Asm.SpecDefs.
 Import ListNotations.
 Open Scope Z_scope.
 
@@ -102,15 +102,6 @@ Proof.
     + eapply stack_eq_trans; eauto.
     + eapply pure_ops_depth; eauto.
 Qed.
-
-(* decimal names of small numbers, for the finite instruction families *)
-Definition digit (n : nat) : string :=
-  match n with
-  | 0 => "0" | 1 => "1" | 2 => "2" | 3 => "3" | 4 => "4" | 5 => "5" | 6 => "6" | 7 => "7"
-  | 8 => "8" | _ => "9"
-  end%nat.
-Definition show (n : nat) : string :=
-  if Nat.ltb n 10 then digit n else append (digit (Nat.div n 10)) (digit (Nat.modulo n 10)).
 
 Lemma stack_eq_cons a b l1 l2 : a = b -> stack_eq l1 l2 -> stack_eq (a :: l1) (b :: l2).
 Proof. intros -> H i. destruct i; [reflexivity | apply H]. Qed.
